@@ -190,6 +190,8 @@ def has_property_decorator(func_node: ast.FunctionDef | ast.AsyncFunctionDef) ->
         True if function has @property decorator
     """
     return any(
-        isinstance(decorator, ast.Name) and decorator.id == "property"
+        (isinstance(decorator, ast.Name) and decorator.id == "property")
+        # @name.setter / @name.deleter / @name.getter complete the same property
+        or (isinstance(decorator, ast.Attribute) and decorator.attr in ("setter", "deleter", "getter"))
         for decorator in func_node.decorator_list
     )
